@@ -9,6 +9,8 @@ Lemma tie_ws_table : ws_table_ok token_space_chars = true.
 Proof. vm_compute; reflexivity. Qed.
 
 Definition tie_html_trim_spec se globals := html_trim_spec_gen se globals tie_ws_table.
+Definition tie_html_trim_member se globals := html_trim_spec_member_gen se globals tie_ws_table.
+Definition tie_html_cover_parents se globals := html_cover_parents_gen se globals tie_ws_table.
 Definition tie_html_substring se globals := html_substring_gen se globals tie_ws_table.
 Definition tie_html_dash_left se globals := html_dash_left_gen se globals tie_ws_table.
 Definition tie_html_dash_right se globals := html_dash_right_gen se globals tie_ws_table.
